@@ -10,6 +10,7 @@ import (
 	"io"
 	"log"
 	"os"
+	"time"
 
 	"github.com/sirupsen/logrus"
 
@@ -21,6 +22,8 @@ func main() {
 		fmt.Fprintln(os.Stderr, "usage: vcheck <ID> [--replay file]")
 		os.Exit(2)
 	}
+	// the process-wide local zone is part of the environment: an odd offset, so that un-pinned clock readings are non-UTC local times too
+	time.Local = time.FixedZone("VRF", 5*3600+45*60)
 	logrus.SetOutput(io.Discard)
 	logrus.SetLevel(logrus.PanicLevel)
 	log.SetOutput(io.Discard)
